@@ -312,8 +312,10 @@ func c51(c *report.Check) {
 		}
 		return viols[i].cs.Succ < viols[j].cs.Succ
 	})
+	sink := newViolSink(c)
+	defer sink.flush()
 	for _, v := range viols {
-		c.Violation(fmt.Sprintf("c51:succ=[%s]:records=%s:%s", v.cs.Succ, v.cs.Records, v.sig), fmt.Sprintf("successors=[%s] records(P0..P3)=%s: %s; %v", v.cs.Succ, v.cs.Records, v.sig, v.info), v.cs)
+		sink.add(fmt.Sprintf("c51:succ=[%s]:records=%s:%s", v.cs.Succ, v.cs.Records, v.sig), fmt.Sprintf("successors=[%s] records(P0..P3)=%s: %s; %v", v.cs.Succ, v.cs.Records, v.sig, v.info), v.cs)
 	}
 	dist := report.NewDistinct(6)
 	var ks []string
